@@ -38,6 +38,22 @@ DESC = {
  "C23-B": ("C23", "an answer is formatted and reported before the stop flag is tested", "a real timeout while the search is inside not(...) around the long search (the forced failure turns into a success)"),
  "C24-A": ("C24", "the Or node keeps a `&mut` to itself across the call into its head goal, while the cut writes to that node through a raw pointer", "a cut executed inside an alternative of a disjunction, followed by failure (Miri: aliasing violation)"),
  "C24-B": ("C24", "the timer number becomes a plain `static mut`", "a timer that really expires, then cancel_timer() or the next start_query_timer() (Miri: data race)"),
+ "C01-C": ("C01", "(round 2) the ids of a matched fact are handed back when the substitution set did not grow (same mechanism as C10-A, found independently)", "a fact with a variable only nested inside an argument, called with an unbound argument, followed by another clause fetch in the same derivation"),
+ "C01-D": ("C01", "(round 2) the And node skips the remaining goals when the head goal succeeds again with the identical substitution set - also when the tail had produced answers", "a non-last goal of a conjunction that succeeds at least twice without binding anything, and a rest of the conjunction that has solutions: answer multiplicity is lost"),
+ "C04-C": ("C04", "(round 2) ground goals that failed are remembered for the rest of the query and fail at once when met again", "a call with constant arguments only that fails after writing something, executed again in the same query"),
+ "C04-D": ("C04", "(round 2) print fills the `%s` markers one after the other in the growing text and strips left-over markers", "an argument placed into a marker whose own text contains `%s`"),
+ "C05-C": ("C05", "(round 2) the body of the last rule is returned directly and kept when it failed; not(G) clears its one-shot flag only when it succeeds", "the last clause of the queried predicate fails in a not(G) whose G had exactly one answer, and the query is asked again after None (each edit alone is harmless)"),
+ "C05-D": ("C05", "(round 2) next_solution() returns None at once while the stop flag is set", "a node asked with next_solution() while the flag is still set (stop_query(), or an earlier timed-out query), then asked again after the flag was cleared"),
+ "C06-C": ("C06", "(round 2) two variables that are both bound are compared with `==` on their `ground terms`", "two bound variables whose values are different compound terms that still contain variables and have a unifier"),
+ "C06-D": ("C06", "(round 2) a tail variable is bound directly; whether it is free is tested on the substitution set the call started with", "a list whose tail variable also occurs in (or is aliased to) an earlier element of the same list: false success, earlier binding overwritten"),
+ "C11-C": ("C11", "(round 2) renaming strips a trailing `_<digits>` from variable names before the lookup", "a clause with two variables whose names are equal up to a trailing `_<digits>` (`$C_1`, `$C_2`, `$C`)"),
+ "C11-D": ("C11", "(round 2) answer extraction stops at a variable bound to another variable of the same *name*", "a query variable unified with an unbound variable of the same name from another rule instance before the value arrives"),
+ "C19-C": ("C19", "(round 2) infix goals are split on the string with a character index used as a byte offset", "non-ASCII characters to the left of a comparison or unification infix"),
+ "C19-D": ("C19", "(round 2) parse_term() skips the arithmetic-infix scan for text that ends in a parenthesis or bracket", "an arithmetic infix whose right operand is a complex term or a function in named form"),
+ "C21-C": ("C21", "(round 2) comment stripping uses a character index as a byte offset", "a line with a non-ASCII atom before a trailing comment: rules lost, glued, rejected, or a panic"),
+ "C21-D": ("C21", "(round 2) the reader caches file contents by name and modification time in whole seconds", "the same path rewritten and loaded again within the same second"),
+ "C22-C": ("C22", "(round 2) get_rule() caches per knowledge-base *address* whether a clause is a ground fact", "two different knowledge bases at the same address one after the other, same predicate, clause i ground in the first and with a variable in the second"),
+ "C22-D": ("C22", "(round 2) parse_query() caches parsed terms under the text with all whitespace removed", "two queries whose texts differ only by a blank inside an atom (`Mary Ann` / `MaryAnn`)"),
  "C02-A": ("C02", "rule-body re-entry rewritten with Option::take(); the cut test after a failed re-entry is dropped", "a cut in a non-first alternative of a disjunction, the call re-entered after its first answer, the goals after the cut fail, and a later clause matches"),
  "C02-B": ("C02", "every node kind tests its own cut flag; the Or node does so only after delegating to its tail node", "a parenthesised disjunction left of a cut whose later alternative supplied the answer and has more, and the goals after the cut fail"),
  "C03-A": ("C03", "not(G) decides ground goals on fact-only predicates by structural equality instead of unification", "G ground at the call, predicate without rule bodies, and the only fact answering G is non-ground (`$_` or a repeated variable)"),
